@@ -7,8 +7,9 @@
 //! (include!) and runs its output path under Miri, where (workload, -Zmiri-seed, preemption rate)
 //! decide every thread switch inside the real std::io::Stdout code and replay exactly.
 //!
-//! Oracle: the bytes on stdout are whole lines; as a multiset they equal the lines the same workload
-//! writes from a single thread; every line is a valid engine-to-GUI message (reference grammar).
+//! Oracle: the bytes on stdout are whole lines; every line is a valid engine-to-GUI message (reference
+//! grammar); by meaning the lines are exactly the messages of the plan (multiset); and as text they
+//! equal, as a multiset, what the same workload writes from a single thread.
 
 use std::collections::BTreeMap;
 use std::io::Read;
@@ -129,6 +130,44 @@ fn harness(class: &str, detail: String) -> Violation {
     Violation::new("HARNESS", class, detail)
 }
 
+/// What an item of the plan must look like on stdout, by meaning (field order within `info` is the
+/// transmitter's choice, so lines are compared after parsing with the reference grammar).
+fn expected_key(item: &str) -> String {
+    let (kind, rest) = item.split_at(1);
+    match kind {
+        "N" => format!("id name {}", rest),
+        "A" => format!("id author {}", rest),
+        "U" => "uciok".to_string(),
+        "R" => "readyok".to_string(),
+        "B" => {
+            let mut it = rest.split(':');
+            format!("bestmove {} ponder {:?}", it.next().unwrap_or(""), it.next())
+        }
+        _ => {
+            let f: Vec<&str> = rest.splitn(6, ':').collect();
+            format!("info depth {} nodes {} time {} cp {} pv {} string {:?}", f[0], f[1], f[2], f[3], f[4].replace('+', " "), f.get(5))
+        }
+    }
+}
+
+fn observed_key(line: &str) -> Result<String, String> {
+    Ok(match uciref::parse_out(line)? {
+        uciref::OutLine::IdName(n) => format!("id name {}", n),
+        uciref::OutLine::IdAuthor(n) => format!("id author {}", n),
+        uciref::OutLine::UciOk => "uciok".to_string(),
+        uciref::OutLine::ReadyOk => "readyok".to_string(),
+        uciref::OutLine::BestMove { best, ponder } => format!("bestmove {} ponder {:?}", best, ponder.as_deref()),
+        uciref::OutLine::Info(i) => {
+            if i.seldepth.is_some() || i.score_mate.is_some() || i.hashfull.is_some() || i.nps.is_some() {
+                return Ok(format!("info with fields nobody sent: {}", line));
+            }
+            let opt = |v: Option<u64>| v.map_or("-".to_string(), |x| x.to_string());
+            format!("info depth {} nodes {} time {} cp {} pv {} string {:?}", opt(i.depth), opt(i.nodes), opt(i.time), i.score_cp.map_or("-".to_string(), |x| x.to_string()), i.pv.clone().unwrap_or_default().join(" "), i.string.as_deref())
+        }
+        other => format!("unexpected message {:?}", other),
+    })
+}
+
 pub fn exec_plan(plan: &AppPlan) -> RunResult {
     let mut res = RunResult::default();
     if let Err(v) = run(plan, &mut res) {
@@ -194,6 +233,19 @@ fn run(plan: &AppPlan, res: &mut RunResult) -> Result<(), Violation> {
         if let Err(e) = uciref::parse_out(l) {
             return Err(Violation::new("C16", "app_output_line_malformed", format!("writers [{}] under Miri seed {} rate {}‰: stdout line {:?} is not a UCI message ({}); full output {:?}", spec, plan.miri_seed, plan.rate_permille, l, e, got_text)));
         }
+    }
+    // by meaning, against the plan itself (independent of the program's own single-threaded output)
+    let mut want_keys: Vec<String> = plan.threads.iter().flatten().map(|i| expected_key(i)).collect();
+    let mut got_keys: Vec<String> = Vec::new();
+    for l in &got {
+        got_keys.push(observed_key(l).map_err(|e| Violation::new("C16", "app_output_line_malformed", format!("{:?}: {}", l, e)))?);
+    }
+    want_keys.sort();
+    got_keys.sort();
+    if want_keys != got_keys {
+        let missing: Vec<&String> = want_keys.iter().filter(|k| !got_keys.contains(k)).collect();
+        let extra: Vec<&String> = got_keys.iter().filter(|k| !want_keys.contains(k)).collect();
+        return Err(Violation::new("C16", "app_output_differs_from_messages_sent", format!("writers [{}] under Miri seed {} rate {}‰: messages sent but not on stdout {:?}; on stdout but never sent {:?}; full output {:?}", spec, plan.miri_seed, plan.rate_permille, missing, extra, got_text)));
     }
     want.sort();
     got.sort();
